@@ -3,7 +3,9 @@ import PdtVerif.Model.SeqScoreWalk
 # `SequentialLanguageModelDistribution`: the cache and `validate_args` plumbing of `log_prob`
 
 A small state machine over abstract values (`Value` = the tensor handed to `log_prob`, shape
-and content; `Scores` = the tensor it returns). The state is the pair
+and content; `Scores` = the tensor it returns, shape and content - in the concrete configuration
+`distCfg` both are `Shaped` tensors, so that an answer handed out in the wrong layout is a wrong
+answer). The state is the pair
 `(_samples_cache, _log_probs_cache)`; the operations are `sample`, `log_prob`, `clear_cache`.
 
 ```
@@ -230,6 +232,17 @@ value one of whose rows holds an out-of-vocabulary token in `hist[:-1]`, i.e. an
 last position — also after the first `eos`, where `_validate_sample` does not look. -/
 def oovInHistory (V : Nat) (value : List (List Nat)) : Bool :=
   value.any (fun r => r.dropLast.any (fun x => decide (V ≤ x)))
+
+/-- The same language model behind a `log_prob` that first replaces whatever follows the first
+`eos` of every row by `eos` (`fill_after_eos(value, eos, -1)`, part of the proposed repair
+`fixes/C07-cache-aliases-caller-tensors.diff`): the model never sees the tokens validation does not
+look at, and raises only on an out-of-vocabulary token that sits before the first `eos` (and not
+in the last position) - which validation rejects unless it is switched off. -/
+def oovBeforeEos (V : Nat) (eos : Option Nat) (value : List (List Nat)) : Bool :=
+  value.any (fun r =>
+    (match eos with
+     | none => r
+     | some e => fillAfterEos r e e).dropLast.any (fun x => decide (V ≤ x)))
 
 /-! ## The tensors belong to the caller: in-place edits between the calls
 
